@@ -18,6 +18,8 @@ package objectsets
 
 //@ func package-operator.run/internal/controllers/objectsets.(*objectSetPhasesReconciler).reconcile
 //@   requires [C03] !failedSoFar()
+//@   ghost failedSoFar() := old(failedSoFar()) || result2 != nil || !(len(result1.PhaseName) == 0 && len(result1.FailedProbes) == 0)
+//@   ensures failedSoFar() == (old(failedSoFar()) || result2 != nil || !(len(result1.PhaseName) == 0 && len(result1.FailedProbes) == 0))
 //@   loop 1 invariant [C03] !failedSoFar()
 
 //@ func package-operator.run/internal/controllers/objectsets.reverse
@@ -54,3 +56,16 @@ package objectsets
 //@   sink Client.Create#1 requires [C15] getResult(clientObj(currentObjectSetPhase)) == 4 || lastGet() == 4
 //@   sink Client.Patch#1 requires [C09,C15] true
 //@   at return#7 assert [C03,C15] availableCond != nil && availableCond.ObservedGeneration == genOf(objstate(clientObj(currentObjectSetPhase)))
+
+//@ props C03,C06
+//@ func package-operator.run/internal/controllers/objectsets.(*objectSetPhasesReconciler).Reconcile
+//@   requires [C03] !failedSoFar()
+//@   at SetStatusCondition#3 assert [C06] !failedSoFar()
+//@   at SetStatusCondition#4 assert [C06] !failedSoFar() && !inTransition
+
+//@ func package-operator.run/internal/controllers/objectsets.isObjectSetInTransition
+//@   readonly
+//@   loop 1 invariant gomem_unchanged()
+//@   loop 2 invariant gomem_unchanged()
+//@   loop 3 invariant gomem_unchanged()
+//@   loop 4 invariant gomem_unchanged()
